@@ -5,7 +5,13 @@ built (unit outward normals, orthogonal unit tangents, closure, flux = dim*V,
 per-cell closure, cells_faces on the first face).  The workload builds all six
 templates on generated meshes; the mask clause compares masked and unmasked
 regions as sets of faces.
+
+The expected faces (surface selection, mask clause, emptied selections) come from an own table of the cells' reference
+coordinates, not from the library's ``cells_faces``; bodies carry points without cells, are rings / revolved rings / two bodies
+in one mesh, have their cells numbered from any corner; masks and flags arrive in every admissible type.
 """
+import collections
+
 import numpy as np
 
 from .. import attach, gen
@@ -17,12 +23,118 @@ TEMPLATES = {"quad": "RegionQuadBoundary", "quad8": "RegionQuadraticQuadBoundary
              "hexahedron20": "RegionQuadraticHexahedronBoundary", "hexahedron27": "RegionTriQuadraticHexahedronBoundary"}
 
 
+ELEMENTS = {"quad": "Quad", "quad8": "QuadraticQuad", "quad9": "BiQuadraticQuad", "hexahedron": "Hexahedron",
+            "hexahedron20": "QuadraticHexahedron", "hexahedron27": "TriQuadraticHexahedron"}
+FACE_MESH = {"quad": "line", "quad8": "line3", "quad9": "line3", "hexahedron": "quad"}  # mesh_faces() is defined for these
+
 UNITS = (1.0, 1e-5, 1e3, 1e-3, 1.0, 1e-7)
 GEO_INDEX = {g: i for i, g in enumerate(gen.GEOMETRIES)}
+MASK_TYPES = ("list-of-bools", "list-of-indices", "int32-indices", "negative-indices", "repeated-indices")
+TOPOLOGIES = ("ring", "two-bodies", "coincident-bodies")
 
 
 def faces_as_sets(rb):
     return set(frozenset(int(i) for i in f) for f in rb.mesh.cells_faces)
+
+
+def faces_as_sets_list(rb):
+    return [frozenset(f) for f in np.asarray(rb.mesh.cells_faces).tolist()]
+
+
+def _reference_nodes():
+    """Reference coordinates of the nodes of the six cell types, written down from the (VTK) numbering convention itself:
+    corners counter-clockwise (bottom, then top), mid-edge nodes in the order of the edges (bottom ring, top ring, verticals),
+    mid-face nodes -x +x -y +y -z +z, centre.  Own table: nothing is read from the library's elements or boundary tables."""
+    q = np.array([[-1, -1], [1, -1], [1, 1], [-1, 1]], float)
+    h = np.array([[-1, -1, -1], [1, -1, -1], [1, 1, -1], [-1, 1, -1], [-1, -1, 1], [1, -1, 1], [1, 1, 1], [-1, 1, 1]], float)
+    qe = [(0, 1), (1, 2), (2, 3), (3, 0)]
+    he = qe + [(4, 5), (5, 6), (6, 7), (7, 4), (0, 4), (1, 5), (2, 6), (3, 7)]
+    q8 = np.vstack([q] + [0.5 * (q[a] + q[b]) for a, b in qe])
+    h20 = np.vstack([h] + [0.5 * (h[a] + h[b]) for a, b in he])
+    hf = np.array([[-1, 0, 0], [1, 0, 0], [0, -1, 0], [0, 1, 0], [0, 0, -1], [0, 0, 1], [0, 0, 0]], float)
+    return {"quad": q, "quad8": q8, "quad9": np.vstack([q8, [[0.0, 0.0]]]), "hexahedron": h, "hexahedron20": h20,
+            "hexahedron27": np.vstack([h20, hf])}
+
+
+REF = _reference_nodes()
+
+
+def own_faces(mesh):
+    """All 2 * dim faces of every cell as sets of point numbers (cell after cell): the nodes whose reference coordinate along one
+    axis is -1 resp. +1."""
+    ref = REF[mesh.cell_type]
+    out = []
+    for c in np.asarray(mesh.cells).tolist():
+        for ax in range(ref.shape[1]):
+            for sg in (-1.0, 1.0):
+                out.append(frozenset(c[a] for a in np.where(ref[:, ax] == sg)[0]))
+    return out
+
+
+def proper_rotations(dim):
+    """The rotations of the reference cell onto itself (signed permutation matrices of determinant +1) without the identity."""
+    import itertools
+    out = []
+    for p in itertools.permutations(range(dim)):
+        for sg in itertools.product((-1.0, 1.0), repeat=dim):
+            Q = np.zeros((dim, dim))
+            Q[np.arange(dim), p] = sg
+            if np.linalg.det(Q) > 0 and not np.allclose(Q, np.eye(dim)):
+                out.append(Q)
+    return out
+
+
+def local_renumbering(cell_type, Q):
+    """perm with REF[perm[a]] = Q REF[a]: ``cells[:, perm]`` is the same cell, numbered from another corner (still positive)."""
+    ref = REF[cell_type]
+    return np.array([int(np.where(np.all(np.isclose(ref, Q @ x), axis=1))[0][0]) for x in ref])
+
+
+def selected_points(m_arg, n):
+    """The set of point numbers a mask stands for: a boolean entry per point, or point numbers (negative ones count from the end,
+    as everywhere in numpy; a number listed twice is still one point)."""
+    a = np.asarray(m_arg)
+    if a.dtype == bool:
+        return set(np.where(a)[0].tolist())
+    return set((a.astype(np.int64) % n).tolist()) if a.size else set()
+
+
+def other_topology(fem, fam, kind, rng, unit):
+    """Bodies that are no simply connected single box: a closed ring of cells (seam merged; revolved by 360 degrees in 3D), two
+    separate bodies in one mesh, two coincident bodies that share no point. Faces are identified by point numbers, so numbering and
+    topology are what matters."""
+    dim = gen.FAMILIES[fam]["dim"]
+    if kind == "ring":
+        nr, nt = int(rng.integers(2, 4)), int(rng.integers(6, 9))
+        if dim == 2:
+            b = fem.Rectangle(a=(1.0, 0.0), b=(2.0, 2 * np.pi), n=(nr, nt))
+            P = b.points
+            b = fem.mesh.merge_duplicate_points(fem.Mesh(np.c_[P[:, 0] * np.cos(P[:, 1]), P[:, 0] * np.sin(P[:, 1])], b.cells, "quad"), decimals=8)
+        else:
+            b = fem.Rectangle(a=(0.0, 1.0), b=(1.0, 2.0), n=(2, nr)).revolve(n=nt, phi=360)
+    else:
+        if dim == 2:
+            a_ = fem.Rectangle(a=(0.0, 0.0), b=(1.0, 1.3), n=(2, 3))
+            b_ = fem.Rectangle(a=(2.0, 0.0), b=(3.1, 1.0), n=(3, 2)) if kind == "two-bodies" else a_
+        else:
+            a_ = fem.Cube(a=(0.0, 0.0, 0.0), b=(1.0, 1.3, 0.8), n=(2, 3, 2))
+            b_ = fem.Cube(a=(2.0, 0.0, 0.0), b=(3.1, 1.0, 1.0), n=(3, 2, 2)) if kind == "two-bodies" else a_
+        b = fem.Mesh(np.vstack([a_.points, b_.points]), np.vstack([a_.cells, b_.cells + a_.npoints]), a_.cell_type)
+    m = gen.FAMILIES[fam]["conv"](b)
+    return fem.Mesh(m.points * unit, m.cells, m.cell_type)
+
+
+def judge_moved(run, rb, expected, label, nq=None, volume=None):
+    """A region that went through copy / reload describes the geometry the caller handed over: its points are those points (a
+    shadow of the arguments; a refresh that silently keeps the old geometry is consistent in itself), its rule is the requested
+    one, and all identities of the hook hold for it."""
+    err = maxabs(rb.mesh.points - expected.points) / maxabs(expected.points)
+    run.compare("boundary.geometry", "celltype=%s clause=points-of-the-refreshed-region" % label, err, 0.0,
+                "%s: the region does not carry the points it was refreshed with" % label, unit="refreshed-points")
+    if nq is not None and not (rb.dA.shape[1] == rb.dV.shape[0] == rb.normals.shape[1] == nq):
+        run.fail("boundary.geometry", "celltype=%s clause=rule-of-the-refreshed-region" % label,
+                 "%s: dA / dV / normals are not given at the points of the requested rule" % label, {"dA": rb.dA.shape, "nq": nq})
+    MB.check_boundary_region(run, rb, expected, label=label, volume=volume, generated=True)
 
 
 def case(fam, geometry, rep):
@@ -44,8 +156,27 @@ def case(fam, geometry, rep):
             inv[perm] = np.arange(mesh.npoints)
             mesh = fem.Mesh(mesh.points[perm], inv[mesh.cells], mesh.cell_type)
             run.units["points-in-random-order"] += 1
+        fi, gi = list(TEMPLATES).index(fam), GEO_INDEX[geometry]
+        if (fi + gi // 2 + rep + run.seed) % 2 == 0:
+            # points that belong to no cell are a documented state of a mesh (reference points of constraints are appended to the
+            # body's mesh): point numbers then differ from positions among the used points. A few of them, in and around the body,
+            # at random places of the point list
+            k = int(rng.integers(2, 5))
+            lo_, hi_ = mesh.points.min(0), mesh.points.max(0)
+            extra = 0.5 * (lo_ + hi_) + (hi_ - lo_) * rng.uniform(-1.0, 1.0, (k, dim))
+            is_new = np.zeros(mesh.npoints + k, bool)
+            is_new[rng.choice(mesh.npoints + k, k, replace=False)] = True
+            pts = np.empty((mesh.npoints + k, dim))
+            pts[~is_new], pts[is_new] = mesh.points, extra
+            mesh = fem.Mesh(pts, np.where(~is_new)[0][mesh.cells], mesh.cell_type)
+            run.units[fam + ":points-without-cells"] += 1
+        used = np.zeros(mesh.npoints, bool)
+        used[np.unique(mesh.cells)] = True
         R = getattr(fem, TEMPLATES[fam])
         MB.attach_hook(run)
+        # the volume of the body as the generator knows it (not for the curved class); all meshes of this case are valid by construction
+        volume = None if info["volume"] is None else info["volume"] * unit ** dim
+        MB.declare(mesh, volume)
         try:
             built = {}
             for only_surface in (True, False):
@@ -60,49 +191,156 @@ def case(fam, geometry, rep):
                 run.units[fam + ":quadrature-order=%d" % o] += 1
             if dim == 3:
                 R(mesh, ensure_3d=True)
-            edge = np.isclose(mesh.points[:, 0], mesh.points[:, 0].min()) | (rng.uniform(size=mesh.npoints) < 0.5)
-            R(mesh, mask=edge, ensure_3d=True, only_surface=False)
-            if fam in ("quad", "hexahedron"):
-                # cells numbered from another corner / with another local orientation (still positive), a body with a re-entrant
-                # corner (one cell removed), a single cell
-                perm = [1, 2, 3, 0] if fam == "quad" else [1, 5, 6, 2, 0, 4, 7, 3]
-                c2 = mesh.cells.copy()
-                c2[::2] = c2[::2][:, perm]
-                m2 = fem.Mesh(mesh.points, c2, mesh.cell_type)
-                for s_ in (True, False):
-                    R(m2, only_surface=s_)
-                m3 = fem.Mesh(mesh.points, mesh.cells[1:], mesh.cell_type)
-                if m3.ncells:
-                    keep = np.unique(m3.cells)
-                    remap = -np.ones(mesh.npoints, int)
-                    remap[keep] = np.arange(len(keep))
-                    m3 = fem.Mesh(mesh.points[keep], remap[m3.cells], mesh.cell_type)
-                    R(m3)
-                m1 = fem.Mesh(mesh.points[mesh.cells[0]], np.arange(mesh.cells.shape[1]).reshape(1, -1), mesh.cell_type)
-                r1a, r1b = R(m1, only_surface=True), R(m1, only_surface=False)
-                if len(r1a.mesh.cells) == len(r1b.mesh.cells) == (4 if dim == 2 else 6):
-                    run.ok("boundary.surface-selection", unit=fam + ":single-cell")
+            # the own universe of faces: every cell's faces from the reference coordinates of its nodes; surface = faces that occur once
+            own = own_faces(mesh)
+            own_cnt = collections.Counter(own)
+            own_once = set(f for f, v in own_cnt.items() if v == 1)
+            # "the first points of the list" as point numbers, as many as it takes to complete a face: numbers are positions in the
+            # point list, whether or not the points before them belong to cells (first mask of the case: a misreading that is loud for
+            # other masks is silent for small numbers)
+            first = np.arange(min(max(f) for f in own) + 1 + int(rng.integers(0, 3)))
+            for s_ in (True, False):
+                rbm = R(mesh, only_surface=s_, mask=first)
+                n_expect = sum(1 for f in (own_once if s_ else own) if f <= set(first.tolist()))
+                if collections.Counter(faces_as_sets_list(rbm)) == collections.Counter(f for f in (own_once if s_ else own) if f <= set(first.tolist())):
+                    run.ok("boundary.mask", unit=fam + ":mask-first-points", config=(fam, "mask-first-points", s_))
                 else:
-                    run.fail("boundary.surface-selection", "celltype=%s clause=single-cell" % fam, "a single cell does not have all its faces on the surface")
-                run.units[fam + ":renumbered+re-entrant"] += 1
+                    run.fail("boundary.mask", "celltype=%s clause=mask-of-the-first-points only_surface=%s" % (fam, s_),
+                             "%s: the mask 0 .. %d (point numbers) selects other faces than those whose points are all among them" % (fam, first[-1]),
+                             {"expected": n_expect, "got": len(rbm.mesh.cells)})
+            edge = np.isclose(mesh.points[:, 0], mesh.points[used, 0].min()) | (rng.uniform(size=mesh.npoints) < 0.5)
+            R(mesh, mask=edge, ensure_3d=True, only_surface=False)
+            # the generic constructor of the class documentation with the element given by hand, and a rule whose points are not
+            # permuted (documented flag of the boundary rule); the one-point rule (order 0) is exact where the cells are affine
+            o_ = 0 if (geometry in ("undistorted", "affine") and (fi + rep + run.seed) % 2 == 0) else gen.FAMILIES[fam]["order"]
+            rule = fem.GaussLegendreBoundary(order=o_, dim=dim, permute=False)
+            fem.RegionBoundary(mesh, getattr(fem.element, ELEMENTS[fam])(), rule, only_surface=bool((gi + rep) % 2), ensure_3d=dim == 2)
+            run.units[fam + ":generic-constructor+rule-not-permuted"] += 1
+            run.units["quadrature-order=%d:not-permuted" % o_] += 1
+            # flags are flags in every type that reads as a truth value (results of array comparisons are numpy booleans)
+            flags = ((np.True_, False, len(own_once)), (0, 1, len(own)), (np.False_, np.True_, len(own)), (1, 0, len(own_once)))
+            if run.tier == "quick":
+                flags = flags[:2] if (fi + gi + run.seed) % 2 else flags[2:]
+            for s_, e_, nexp in flags:
+                rbf = R(mesh, only_surface=s_, ensure_3d=e_)
+                good = len(rbf.mesh.cells) == nexp and rbf.dA.shape[0] == (3 if e_ else dim)
+                if good:
+                    run.ok("boundary.surface-selection", unit=fam + ":flag-types")
+                else:
+                    run.fail("boundary.surface-selection", "celltype=%s clause=flag-types only_surface=%r ensure_3d=%r" % (fam, s_, e_),
+                             "%s: flags given as numpy booleans / integers are not read as truth values" % fam,
+                             {"faces": len(rbf.mesh.cells), "expected": nexp, "dA rows": rbf.dA.shape[0]})
+            # cells numbered from another corner / with another local orientation (still positive; all nodes of the quadratic
+            # families move along), a body with a re-entrant corner (one cell removed), a single cell
+            rots = proper_rotations(dim)
+            perm = local_renumbering(fam, rots[int(rng.integers(0, len(rots)))])
+            c2 = mesh.cells.copy()
+            c2[::2] = c2[::2][:, perm]
+            if (fi + gi + rep + run.seed) % 2:
+                # the arrays of a mesh in another memory layout / integer width (as mesh readers deliver them)
+                m2 = fem.Mesh(np.asfortranarray(mesh.points), np.asfortranarray(c2.astype(np.int32)), mesh.cell_type)
+                run.units["mesh-arrays=column-major+int32"] += 1
+            else:
+                m2 = fem.Mesh(mesh.points, c2, mesh.cell_type)
+            MB.declare(m2, volume)
+            for s_ in (True, False):
+                r2 = R(m2, only_surface=s_)
+                # the same body: the same faces
+                if collections.Counter(faces_as_sets_list(r2)) == (collections.Counter(own_once) if s_ else own_cnt):
+                    run.ok("boundary.surface-selection", unit=fam + ":renumbered-faces")
+                else:
+                    run.fail("boundary.surface-selection", "celltype=%s clause=renumbered-cells only_surface=%s" % (fam, s_),
+                             "%s: cells numbered from another corner do not have the same faces" % fam)
+            m3 = fem.Mesh(mesh.points, mesh.cells[1:], mesh.cell_type)
+            if m3.ncells:
+                keep = np.unique(m3.cells)
+                remap = -np.ones(mesh.npoints, int)
+                remap[keep] = np.arange(len(keep))
+                m3 = MB.declare(fem.Mesh(mesh.points[keep], remap[m3.cells], mesh.cell_type))
+                R(m3)
+            m1 = MB.declare(fem.Mesh(mesh.points[mesh.cells[0]], np.arange(mesh.cells.shape[1]).reshape(1, -1), mesh.cell_type))
+            r1a, r1b = R(m1, only_surface=True), R(m1, only_surface=False)
+            if len(r1a.mesh.cells) == len(r1b.mesh.cells) == (4 if dim == 2 else 6):
+                run.ok("boundary.surface-selection", unit=fam + ":single-cell")
+            else:
+                run.fail("boundary.surface-selection", "celltype=%s clause=single-cell" % fam, "a single cell does not have all its faces on the surface")
+            run.units[fam + ":renumbered+re-entrant"] += 1
+            # bodies of another topology (one kind per case, all kinds for every cell type in every run)
+            kind = TOPOLOGIES[(fi + gi + rep + run.seed) % len(TOPOLOGIES)]
+            mt = MB.declare(other_topology(fem, fam, kind, rng, unit))
+            t_all = own_faces(mt)
+            t_cnt = collections.Counter(t_all)
+            t_once = set(f for f, v in t_cnt.items() if v == 1)
+            for s_ in (True, False):
+                rt = R(mt, only_surface=s_)
+                if collections.Counter(faces_as_sets_list(rt)) == (collections.Counter(t_once) if s_ else t_cnt):
+                    run.ok("boundary.surface-selection", unit=fam + ":" + kind, config=(fam, kind, s_))
+                else:
+                    run.fail("boundary.surface-selection", "celltype=%s clause=surface-selection body=%s only_surface=%s" % (fam, kind, s_),
+                             "%s: the faces of a %s are not those of its cells (only_surface: those that occur once)" % (fam, kind),
+                             {"got": len(rt.mesh.cells), "expected": len(t_once) if s_ else len(t_all)})
             # copies and reloads of a boundary region are boundary regions of the same (resp. the new) geometry
             rb0 = built[(True, False)]
-            MB.check_boundary_region(run, rb0.copy(), mesh, label=fam + "[copy]")
+            MB.check_boundary_region(run, rb0.copy(), mesh, label=fam + "[copy]", volume=volume, generated=True)
             run.units[fam + ":copy"] += 1
-            size = float(np.ptp(mesh.points, axis=0).max())  # translations in units of the body (a far-away body only costs digits)
+            size = float(np.ptp(mesh.points[used], axis=0).max())  # translations in units of the body (a far-away body only costs digits)
             m_upd = mesh.copy()
             rbu = R(m_upd)
             A_, t_ = gen.random_affine(rng, dim)
             rbu.mesh.update(points=rbu.mesh.points @ A_.T + size * t_, callback=rbu.reload)
-            MB.check_boundary_region(run, rbu, mesh.copy(points=mesh.points @ A_.T + size * t_), label=fam + "[reload]")
+
+            def vol_of(*maps):  # closed-form volume of an affine image of the body
+                return None if volume is None else volume * float(np.prod([np.linalg.det(a) for a in maps]))
+
+            MB.check_boundary_region(run, rbu, mesh.copy(points=mesh.points @ A_.T + size * t_), label=fam + "[reload]", volume=vol_of(A_), generated=True)
             run.units[fam + ":reload"] += 1
             # the documented refresh after moving the body: the *user's* mesh is updated and hands itself to the region's reload
             m_usr = mesh.copy()
             rbv = R(m_usr, only_surface=bool(rep % 2 == 0))
             A2, t2 = gen.random_affine(rng, dim)
             m_usr.update(points=m_usr.points @ A2.T + size * t2, callback=rbv.reload)
-            MB.check_boundary_region(run, rbv, mesh.copy(points=mesh.points @ A2.T + size * t2), label=fam + "[reload by the body's mesh]")
+            MB.check_boundary_region(run, rbv, mesh.copy(points=mesh.points @ A2.T + size * t2), label=fam + "[reload by the body's mesh]",
+                                     volume=vol_of(A2), generated=True)
             run.units[fam + ":reload-by-body-mesh"] += 1
+            # the same methods on a region with drawn flags, where the natural call order hides nothing: the refresh twice in a row
+            # (after the first one the region's points are the caller's array), a copy with another rule, a reload with another
+            # rule, a bare reload after the region's own points were moved in place. Expected geometry: what the caller passed.
+            kw = dict(only_surface=bool((fi + gi + run.seed) % 2), ensure_3d=bool((gi + rep + run.seed) % 2))
+            if (fi + rep + run.seed) % 2:
+                kw["mask"] = edge
+            m_w = mesh.copy()
+            rbw = R(m_w, **kw)
+            moved, maps = mesh.points, []
+            for k in range(2):
+                A3, t3 = gen.random_affine(rng, dim)
+                maps.append(A3)
+                moved = moved @ A3.T + size * t3
+                size = float(np.ptp(moved[used], axis=0).max())
+                m_w.update(points=moved.copy(), callback=rbw.reload)
+            judge_moved(run, rbw, mesh.copy(points=moved), fam + "[second reload by the body's mesh]", volume=vol_of(*maps))
+            q3 = fem.GaussLegendreBoundary(order=3, dim=dim)
+            rbc = rbw.copy(quadrature=q3)
+            judge_moved(run, rbc, mesh.copy(points=moved), fam + "[copy with another rule]", nq=4 ** (dim - 1), volume=vol_of(*maps))
+            judge_moved(run, rbw, mesh.copy(points=moved), fam + "[region after it was copied]", volume=vol_of(*maps))
+            A3, t3 = gen.random_affine(rng, dim)
+            moved2 = moved @ A3.T + size * t3
+            rbw.mesh.points[:] = moved2
+            rbw.reload(quadrature=fem.GaussLegendreBoundary(order=2, dim=dim, permute=False))
+            judge_moved(run, rbw, mesh.copy(points=moved2), fam + "[reload with another rule after an in-place move]", nq=3 ** (dim - 1),
+                        volume=vol_of(*(maps + [A3])))
+            judge_moved(run, rbc, mesh.copy(points=moved), fam + "[copy after the original moved]", nq=4 ** (dim - 1), volume=vol_of(*maps))
+            rbw.mesh.points[:] = moved
+            rbw.reload()
+            judge_moved(run, rbw, mesh.copy(points=moved), fam + "[bare reload after an in-place move]", nq=3 ** (dim - 1), volume=vol_of(*maps))
+            # a copy cast to single precision describes the same surface: its arrays are those of the region, rounded (own cast; taken
+            # from the unmoved body, whose areas of 1e-14 .. 1e6 are far inside the range of single precision)
+            r32 = rb0.astype(np.float32)
+            err = max(maxabs(np.asarray(getattr(r32, a_), float) - np.asarray(getattr(rb0, a_)).astype(np.float32)) / maxabs(getattr(rb0, a_))
+                      for a_ in ("dV", "dA", "normals"))
+            run.compare("boundary.geometry", "celltype=%s clause=astype-float32" % fam, err, 1e-5,
+                        "%s: dV / dA / normals of region.astype(float32) are not those of the region" % fam, unit=fam + ":astype")
+            run.units[fam + ":reload-twice+copy-rule+bare-reload"] += 1
+            run.units["methods:" + ",".join("%s=%s" % (k_, v_) for k_, v_ in sorted(kw.items()) if k_ != "mask") + (",mask" if "mask" in kw else "")] += 1
             # the geometric gradient of the boundary cells stays the derivative of the position (dXdr drdX = 1)
             one = np.einsum("IKqc,KJqc->IJqc", rb0.dXdr, rb0.drdX)
             run.compare("boundary.geometry", "celltype=%s clause=dXdr-times-drdX" % fam, maxabs(one - np.eye(dim).reshape(dim, dim, 1, 1)), 1e-10,
@@ -119,10 +357,32 @@ def case(fam, geometry, rep):
             else:
                 run.fail("boundary.surface-selection", "celltype=%s clause=surface-selection" % fam,
                          "%s: only_surface does not select exactly the faces that occur once" % fam)
+            # the same against the own universe of faces (the library's cells_faces of the unselected region are not taken on trust):
+            # all faces with their multiplicities, the surface = those that occur once
+            if collections.Counter(faces_as_sets_list(allf)) == own_cnt and set(faces_as_sets_list(built[(True, False)])) == own_once \
+                    and len(built[(True, False)].mesh.cells) == len(own_once):
+                run.ok("boundary.surface-selection", unit=fam + ":surface-selection-own-faces")
+            else:
+                run.fail("boundary.surface-selection", "celltype=%s clause=surface-selection-own-faces" % fam,
+                         "%s: the faces of the region are not the faces of the cells (only_surface: those that occur once)" % fam,
+                         {"all": len(allf.mesh.cells), "expected all": len(own), "surface": len(built[(True, False)].mesh.cells),
+                          "expected surface": len(own_once)})
+            # mesh_faces(): the selected faces as a mesh of lines / quads - the faces of the region in the documented cell type, with
+            # the area vectors of the region (rim of every face cell)
+            if fam in FACE_MESH:
+                for key_ in ((True, False), (False, False)):
+                    mf = built[key_].mesh_faces()
+                    ref_ = MB.rim_area_vectors(mf.points[mf.cells], dim)
+                    got_ = np.asarray(built[key_].dA)[:dim].sum(1).T
+                    sgn_ = np.sign((got_ * ref_).sum(1))[:, None] if got_.shape == ref_.shape else None
+                    err = maxabs(got_ - sgn_ * ref_) / maxabs(ref_) if sgn_ is not None else np.inf
+                    same = mf.cell_type == FACE_MESH[fam] and [frozenset(c) for c in mf.cells.tolist()] == faces_as_sets_list(built[key_])
+                    run.compare("boundary.geometry", "celltype=%s clause=mesh_faces only_surface=%s" % (fam, key_[0]), err if same else np.inf, 1e-12,
+                                "%s: mesh_faces() is not the mesh of the region's faces" % fam, unit=fam + ":mesh_faces")
             # mask clause
             X = mesh.points
             masks = []
-            lo, hi = X.min(0), X.max(0)
+            lo, hi = X[used].min(0), X[used].max(0)
             for k in range(3 if run.tier == "quick" else 8):
                 ax = int(rng.integers(0, dim))
                 thr = lo[ax] + rng.uniform(0.2, 0.8) * (hi[ax] - lo[ax])
@@ -144,26 +404,51 @@ def case(fam, geometry, rep):
                         md[keep] = True
                 masks.append(md)
                 masks.append(np.where(md)[0])  # the same selection as an array of point indices
-            for only_surface in (True, False):
-                universe = built[(only_surface, False)]
-                for m_arg in masks:
-                    m = np.isin(np.arange(len(X)), m_arg) if np.asarray(m_arg).dtype != bool else m_arg
-                    sel = set(np.arange(len(X))[m].tolist())
-                    expect = set(f for f in faces_as_sets(universe) if f <= sel)
-                    if not expect:
-                        run.skip("boundary.mask", "mask selects no face")
-                        continue
+                # ... and in the other types an index may arrive in (one per designed mask, all of them in every run)
+                kind = MASK_TYPES[(k + fi + gi + rep + run.seed) % len(MASK_TYPES)]
+                idx = np.where(md)[0]
+                masks.append({"list-of-bools": md.tolist(), "list-of-indices": idx.tolist(), "int32-indices": idx.astype(np.int32),
+                              "negative-indices": idx - len(X), "repeated-indices": np.r_[idx[::-1], idx]}[kind])
+                run.units["mask-type=" + kind] += 1
+            n_designed = len(masks)
+            # masks that select no face at all: nothing selected, the empty list of points, single points (a face needs all its points);
+            # all corners of the body's cells but none of the other nodes (quadratic families: no complete face)
+            corners = np.zeros(len(X), bool)
+            corners[np.unique(mesh.cells[:, : MB.NV[fam]])] = True
+            masks += [np.zeros(len(X), bool), np.array([], int), np.array([0]), [0], np.array([-1])] + ([corners] if fam not in ("quad", "hexahedron") else [])
+            universe_sets = {s_: (own_once if s_ else set(own)) for s_ in (True, False)}
+            library_faces = {s_: faces_as_sets_list(built[(s_, False)]) for s_ in (True, False)}
+            for j, m_arg in enumerate(masks):
+                sel = selected_points(m_arg, len(X))
+                for only_surface in (True, False):
+                    # expected faces: those of the own universe whose points all satisfy the mask (with the library's list of the
+                    # unselected region as a second, equally binding reference)
+                    expect = set(f for f in universe_sets[only_surface] if f <= sel)
+                    n_expect = sum(1 for f in (own if not only_surface else own_once) if f <= sel)
+                    expect_lib = [f for f in library_faces[only_surface] if f <= sel]
+                    if j >= n_designed and (j + fi + gi + run.seed + only_surface) % 2:
+                        continue  # the emptied selections alternate between surface and all faces
                     rbm = R(mesh, only_surface=only_surface, mask=m_arg)
                     got = faces_as_sets(rbm)
-                    if got == expect and len(rbm.mesh.cells) == sum(1 for f in universe.mesh.cells_faces
-                                                                     if frozenset(int(i) for i in f) <= sel):
+                    if not expect:
+                        # no face has all its points in the mask: the region is empty (it is built all the same - an over-selection
+                        # shows nowhere else)
+                        if len(rbm.mesh.cells) == 0 and len(rbm.mesh.cells_faces) == 0 and not expect_lib:
+                            run.ok("boundary.mask", unit=fam + ":mask-selects-nothing", config=(fam, "mask-selects-nothing", only_surface))
+                        else:
+                            run.fail("boundary.mask", "celltype=%s clause=mask-selects-nothing only_surface=%s" % (fam, only_surface),
+                                     "%s: a mask that contains no complete face selects faces" % fam,
+                                     {"expected": 0, "got": len(rbm.mesh.cells), "points in the mask": len(sel)})
+                        continue
+                    if got == expect and len(rbm.mesh.cells) == n_expect and got == set(expect_lib) and len(rbm.mesh.cells) == len(expect_lib):
                         run.ok("boundary.mask", unit=fam + ":mask", config=(fam, geometry, "mask", only_surface))
                     else:
                         run.fail("boundary.mask", "celltype=%s clause=mask only_surface=%s" % (fam, only_surface),
                                  "%s: mask selects other faces than those whose points all satisfy it" % fam,
-                                 {"expected": len(expect), "got": len(got)})
+                                 {"expected": len(expect), "got": len(got), "mask": type(m_arg).__name__ + ":" + str(np.asarray(m_arg).dtype)})
         finally:
             attach.detach_all()
+            del MB.KNOWN[:]
     return fn
 
 
@@ -187,6 +472,15 @@ def _required():
                 fam + ":cells_faces", fam + ":surface-selection", fam + ":reload-by-body-mesh"]
     req += ["quad:ensure_3d", "quad8:ensure_3d", "quad9:ensure_3d", "points-in-random-order", "length-unit=1", "length-unit=1e-05", "length-unit=0.001", "length-unit=1000", "length-unit=1e-07"]
     req += ["%s:only_surface=%s:face-area-vector" % (f, s_) for f in ("quad", "hexahedron") for s_ in (True, False)]
+    for fam in TEMPLATES:
+        for s in (True, False):
+            u = "%s:only_surface=%s" % (fam, s)
+            req += [u + ":face-rim", u + ":flux-analytic"] + ([u + ":tangent-span"] if gen.FAMILIES[fam]["dim"] == 3 else [])
+        req += [fam + ":" + k for k in TOPOLOGIES + ("points-without-cells", "mask-selects-nothing", "surface-selection-own-faces", "flag-types",
+                                                     "renumbered-faces", "single-cell", "mask-first-points", "generic-constructor+rule-not-permuted",
+                                                     "reload-twice+copy-rule+bare-reload", "astype")]
+    req += [fam + ":mesh_faces" for fam in FACE_MESH] + ["mask-type=" + k for k in MASK_TYPES]
+    req += ["mesh-arrays=column-major+int32", "refreshed-points", "quadrature-order=0:not-permuted"]
     return req
 
 
@@ -195,9 +489,16 @@ SPEC = {
     "rule": ("six boundary templates x geometric classes (undistorted, affine, straight-distorted, curved by a smooth map with "
              "bounded gradient) x length units 1e-7 .. 1e3 x only_surface x ensure_3d x random point masks on seeded meshes of 2..12 cells; the "
              "RegionBoundary.__init__ post-hook evaluates every identity; a configuration is distinct by (cell type, "
-             "geometry class, flags, clause)"),
+             "geometry class, flags, clause). Bodies with points without cells, rings / revolved rings / two bodies / coincident bodies, "
+             "cells numbered from any corner, single cells; masks as boolean / index arrays and lists, int32, negative, repeated, "
+             "empty, incomplete faces; flags as numpy booleans / integers; the generic constructor, rules not permuted / of order 0; "
+             "copy, reload (twice, with another rule, bare after an in-place move), astype, mesh_faces. Expected faces from an own table "
+             "of reference coordinates; face area vectors from the rim of cells_faces; flux against the generator's closed-form volume"),
     "assumptions": ["outwardness is judged against the vertex centroid of the owning cell (valid for the generated, mildly "
                     "distorted cells)", "the volume on the right-hand side of the flux identity is the one measured by the "
-                    "corresponding volume region (as the property states)"],
+                    "corresponding volume region (as the property states); where the generator knows the volume in closed form the "
+                    "flux is judged against that number as well",
+                    "the node order of cells_faces is read as a face cell (ring of corners, mid nodes between them, centre last), "
+                    "its sense of rotation is left open; the two tangents of a 3d face are required to span it, their handedness is left open"],
     "jobs": {"quick": 6, "thorough": 12},
 }
